@@ -64,9 +64,9 @@ func ParseOCSP(der []byte) (o *ocsp.Response, ok bool, panicked bool) {
 }
 
 type Corpus struct {
-	Certs []*Obj
-	CRLs  []*Obj
-	OCSPs []*Obj
+	Certs    []*Obj
+	CRLs     []*Obj
+	OCSPs    []*Obj
 	Unparsed int
 }
 
